@@ -122,20 +122,33 @@ func ruleSystemLimitGuards(w *World, r *RuleResult) {
 			n++
 			key := fmt.Sprintf("%s | system-limit return #%d", name, n)
 			okGuard := false
-			var seen []string
+			var seen, notStrict []string
 			for _, g := range guardsAt(b) {
 				bo, isB := g.Cond.(*ssa.BinOp)
 				if !isB {
 					continue
 				}
-				for _, o := range []ssa.Value{bo.X, bo.Y} {
+				for oi, o := range []ssa.Value{bo.X, bo.Y} {
 					if k, isK := o.(*ssa.Const); isK && (ci(k) == maxE || ci(k) == -maxE) {
 						okGuard = true
+						// the limit itself is inside the range: the test must be strict on the limit's side
+						op := bo.Op
+						if oi == 0 { // const <op> value  ==  value <flipped op> const
+							op = map[token.Token]token.Token{token.LSS: token.GTR, token.GTR: token.LSS, token.LEQ: token.GEQ, token.GEQ: token.LEQ}[op]
+						}
+						// only the guard on whose "beyond the limit" side this return sits
+						loose := (ci(k) == maxE && ((op == token.GEQ && g.Val) || (op == token.LSS && !g.Val))) ||
+							(ci(k) == -maxE && ((op == token.LEQ && g.Val) || (op == token.GTR && !g.Val)))
+						if loose {
+							notStrict = append(notStrict, w.exprOf(f, g.Cond).String())
+						}
 					}
 				}
 				seen = append(seen, w.exprOf(f, g.Cond).String())
 			}
-			if okGuard {
+			if okGuard && len(notStrict) > 0 {
+				r.bad(key, w.instrPos(rt), "the system-limit condition is returned under "+short(strings.Join(notStrict, " ∧ "), 160)+", which rejects the limit itself: an adjusted exponent of exactly ±MaxExponent is inside the package range (Mul(2E+50000, 3E+50000) must be 6E+100000)")
+			} else if okGuard {
 				r.ok(key, w.instrPos(rt), "under a comparison with ±MaxExponent (the package limit)", true)
 			} else {
 				r.bad(key, w.instrPos(rt), "a system exponent-limit condition is returned under "+short(strings.Join(seen, " ∧ "), 200)+", which does not compare with the package limits: values inside the package range would be rejected (or outside accepted)")
